@@ -86,6 +86,7 @@ type Gor struct {
 	yielding bool
 	blockedAt int
 	blockedOnce bool
+	skipYield   bool
 }
 
 func (g *Gor) clone() *Gor {
